@@ -44,3 +44,57 @@ package server
 //@ func (ch *ConnectionHandler) multiplexToUpstream
 //@   property C02
 //@   requires !G_holds_session_accept_loop()                 :not_on_session_accept_loop
+
+// ===================================================================================================
+// C03: channel routing and exposure control
+//@ ghost G_opens() int
+
+//@ iface (github.com/bokysan/socketace/v2/internal/server.Channel).Name (c Channel) (result string)
+//@   stable
+//@ iface (github.com/bokysan/socketace/v2/internal/server.Channel).OpenConnection (c Channel) (result net.Conn, err error)
+//@   modifies G_opens()
+//@   ensures G_opens() == old(G_opens()) + 1
+
+//@ pred memberCh(chl Channels, c Channel) := exists i :: 0 <= i && i < len(chl) && chl[i] == c
+//@ pred memberName(names []string, n string) := exists j :: 0 <= j && j < len(names) && names[j] == n
+//@ pred noneNamed(chl Channels, name string) := forall i :: 0 <= i && i < len(chl) ==> chl[i] == nil || chl[i].Name() != name
+//@ pred channelsWF(chl Channels) := forall i :: 0 <= i && i < len(chl) ==> chl[i] != nil
+
+//@ func (chl *Channels) Find
+//@   property C03
+//@   safe
+//@   terminates
+//@   pure
+//@   requires channelsWF(*chl)
+//@   ensures err == nil ==> result != nil && memberCh(*chl, result) && result.Name() == name        :exact_name_match
+//@   ensures err != nil ==> result == nil && noneNamed(*chl, name)                                 :refuses_unconfigured_name
+//@   loop 1 vars iter int, rng []Channel, available []string
+//@   loop 1 invariant spec_fresh(available)
+//@   loop 1 invariant forall j :: 0 <= j && j < iter ==> rng[j].Name() != name
+
+//@ func (chl *Channels) Filter
+//@   property C03
+//@   safe
+//@   terminates
+//@   pure
+//@   requires channelsWF(*chl)
+//@   ensures len(names) == 0 ==> err == nil && spec_sameslice(result, *chl)                                           :empty_list_exposes_all
+//@   ensures len(names) > 0 ==> (forall k :: 0 <= k && k < len(result) ==> result[k] != nil && memberCh(*chl, result[k]) && memberName(names, result[k].Name()))   :only_listed_configured_channels
+//@   ensures len(names) > 0 ==> spec_fresh(result)                                                                    :never_aliases_the_table
+//@   ensures len(names) > 0 && err == nil ==> len(result) == len(names)                                               :every_listed_name_resolved
+//@   loop 1 vars iter int, rng []string, upstreams Channels, errs error
+//@   loop 1 invariant spec_fresh(upstreams) && len(upstreams) <= iter && spec_sameslice(rng, names)
+//@   loop 1 invariant spec_sameslice(*chl, old(*chl))
+//@   loop 1 invariant forall i :: 0 <= i && i < len(*chl) ==> (*chl)[i] == old((*chl)[i])
+//@   loop 1 invariant channelsWF(*chl)
+//@   loop 1 invariant forall k :: 0 <= k && k < len(upstreams) ==> upstreams[k] != nil && memberCh(*chl, upstreams[k]) && memberName(names, upstreams[k].Name())
+//@   loop 1 invariant errs == nil ==> len(upstreams) == iter
+
+//@ func (ch *ConnectionHandler) muxHandler
+//@   property C03
+//@   safe
+//@   requires channelsWF(ch.channels)
+//@   callsite OpenConnection#1 (upstreamConnection net.Conn, e error, channel Channel) assert "/"+channel.Name() == protocol && memberCh(ch.channels, channel)   :connects_only_the_requested_configured_channel
+//@   ensures (forall i :: 0 <= i && i < len(ch.channels) ==> protocol != "/"+ch.channels[i].Name()) ==> err != nil && G_opens() == old(G_opens())    :no_outbound_on_refusal
+//@   loop 1 vars iter int, rng Channels
+//@   loop 1 invariant G_opens() == old(G_opens()) && (forall j :: 0 <= j && j < iter ==> protocol != "/"+rng[j].Name())
